@@ -210,14 +210,23 @@ package parquet
 //@ loop getRepetitionTypes#1
 //@   invariant freshsince(out) && #out == #in && 0 <= rangeindex + 1
 
+// C03: a column's maximum definition level is the number of optional or repeated
+// fields on its path, its maximum repetition level the number of repeated ones
+// (required groups in between count for neither).
+//@ recfn cntNonReq(A array<int>, off int, n int) int := ite(n <= 0, 0, cntNonReq(A, off, n - 1) + ite(A[off + n - 1] == 1 || A[off + n - 1] == 2, 1, 0))
+//@ recfn cntRepd(A array<int>, off int, n int) int := ite(n <= 0, 0, cntRepd(A, off, n - 1) + ite(A[off + n - 1] == 2, 1, 0))
 //@ func (RepetitionTypes).MaxDef
+//@   verify[C03]
 //@   modifies nothing
+//@   ensures[C03] cntNonReq(HA(r), off(r), #r) <= 255 ==> res == cntNonReq(HA(r), off(r), #r)
 //@ loop (RepetitionTypes).MaxDef#1
-//@   invariant true
+//@   invariant[C03] 0 <= rangeindex + 1 && rangeindex + 1 <= #r && cntNonReq(HA(r), off(r), rangeindex + 1) >= 0 && (cntNonReq(HA(r), off(r), rangeindex + 1) <= 255 ==> out == cntNonReq(HA(r), off(r), rangeindex + 1))
 //@ func (RepetitionTypes).MaxRep
+//@   verify[C03]
 //@   modifies nothing
+//@   ensures[C03] cntRepd(HA(r), off(r), #r) <= 255 ==> res == cntRepd(HA(r), off(r), #r)
 //@ loop (RepetitionTypes).MaxRep#1
-//@   invariant true
+//@   invariant[C03] 0 <= rangeindex + 1 && rangeindex + 1 <= #r && cntRepd(HA(r), off(r), rangeindex + 1) >= 0 && (cntRepd(HA(r), off(r), rangeindex + 1) <= 255 ==> out == cntRepd(HA(r), off(r), rangeindex + 1))
 
 // ---- read path
 // C10: a failed Read/Seek on the source surfaces as an error.
